@@ -24,7 +24,7 @@ TASK
    - the crate still compiles (`cargo build --offline` and also `cargo build --offline --features mstsc-rs` if you touched src/bin),
    - the existing unit tests all still pass: `cd {wt} && cargo test --offline --lib` must report 39 passed,
    - the breakage needs something SPECIFIC to manifest (an unusual input value, a particular multi-step sequence, a particular fault or interleaving, a boundary length) — NOT something every ordinary connection would hit at once. Do not modify or delete existing tests. Do not touch code guarded by `#[cfg(rdp_rs_verif)]`. Do not add new dependencies.
-3. Write a demonstration: a new test file at {wt}/tests/demo_{pid.lower()}.rs (an integration test using only the crate's public API; it may use `--cfg rdp_rs_verif` hook functions such as `rdp::model::rnd::verif::set_pattern`, `x224::Client::verif_new_raw`, `RdpClient::verif_from_parts`, `global::Client::verif_state_id` if needed — in that case say so and run with RUSTFLAGS="--cfg rdp_rs_verif"), OR, if the public API cannot reach the code, a `#[cfg(test)]` unit test appended in a NEW module at the end of the source file. The demonstration must FAIL with your change and PASS without it. Verify both: run it with the change; then `git stash` only the src change (keep the demo), run it again to see it pass, then `git stash pop`.
+3. Write a demonstration: a new test file at {wt}/tests/demo_{pid.lower()}.rs (an integration test using only the crate's public API; it may use `--cfg rdp_rs_verif` hook functions such as `rdp::model::rnd::verif::set_pattern`, `x224::Client::verif_new_raw`, `RdpClient::verif_from_parts`, `global::Client::verif_state_id` if needed — in that case say so and run with RUSTFLAGS="--cfg rdp_rs_verif"), OR, if the public API cannot reach the code, a `#[cfg(test)]` unit test appended in a NEW module at the end of the source file. The demonstration must FAIL with your change and PASS without it. Verify both: run it with the change; then take the src change out with `git diff -- src > /tmp/{pid}{n}-change.patch && git apply -R /tmp/{pid}{n}-change.patch` (keep the demo), run it again to see it pass, then put it back with `git apply /tmp/{pid}{n}-change.patch`. NEVER use `git stash`: the stash is shared between all worktrees of the repository and other people are working in sibling worktrees right now.
 4. Leave the worktree with your src change and the demo in place (uncommitted). Remove the `target` directory inside the worktree when you are finished ( `rm -rf {wt}/target` ) to save disk.
 
 REPORT (your final message): (a) the diff of the src change (`git -C {wt} diff -- src`), (b) path of the demo and the exact command to run it, (c) one paragraph: why it breaks the property and what specific condition is needed for it to manifest, (d) confirmation of the three runs (unit tests 39 pass with change; demo fails with change; demo passes without change).
